@@ -202,6 +202,52 @@ VH_OP(obj_nums) {
   return out;
 }
 
+// ---- histories: ONE encoder object writes geometry A, then geometry B; the result for B must satisfy the property
+// like the result of a fresh encoder.   <op>h <as_mesh> <geometry A> -- <geometry B>   -> as <op> on B
+namespace {
+template <class EncT>
+bool write_twice(const PointCloud *a, bool a_mesh, const PointCloud *b, bool b_mesh, Bytes *out) {
+  EncT e;
+  {
+    EncoderBuffer scratch;
+    if (a_mesh)
+      (void)e.EncodeToBuffer(*static_cast<const Mesh *>(a), &scratch);
+    else
+      (void)e.EncodeToBuffer(*a, &scratch);
+  }
+  EncoderBuffer buf;
+  const bool ok = b_mesh ? e.EncodeToBuffer(*static_cast<const Mesh *>(b), &buf) : e.EncodeToBuffer(*b, &buf);
+  if (!ok) return false;
+  *out = bytes_of(buf);
+  return true;
+}
+struct TwoGeoms {
+  std::unique_ptr<PointCloud> a, b;
+  bool a_mesh = false, b_mesh = false;
+};
+TwoGeoms parse_two(const vh::Args &args) {
+  TwoGeoms t;
+  size_t pos = 2;
+  t.a = vh::parse_geometry(args, pos, &t.a_mesh);
+  ++pos;  // "--"
+  t.b = vh::parse_geometry(args, pos, &t.b_mesh);
+  return t;
+}
+}  // namespace
+
+VH_OP(obj_rth) {
+  TwoGeoms t = parse_two(a);
+  Bytes f;
+  if (!write_twice<ObjEncoder>(t.a.get(), t.a_mesh, t.b.get(), t.b_mesh, &f)) return "ERR | ERR";
+  return obj_canon(f) + " | " + read_obj(f, a[1] == "1");
+}
+VH_OP(ply_rth) {
+  TwoGeoms t = parse_two(a);
+  Bytes f;
+  if (!write_twice<PlyEncoder>(t.a.get(), t.a_mesh, t.b.get(), t.b_mesh, &f)) return "ERR | ERR";
+  return vh::hex(f) + " | " + read_ply(f, a[1] == "1");
+}
+
 // ---------------------------------------------------------------- command line tools
 
 namespace {
